@@ -93,4 +93,25 @@ theorem fresh_not_owned {s : State} (hi : Inv s) {l : List Ptr} (hf : FreshL s.p
   · cases h
   · injection h with h1 _; omega
 
+theorem slotsIds_replicate (n : Nat) : slotsIds (List.replicate n none) = [] := by
+  induction n with
+  | zero => rfl
+  | succ n ih => simp [List.replicate_succ, slotsIds, optIds, ih]
+
+theorem laysIds_replicate (n : Nat) : laysIds (List.replicate n none) = [] := by
+  induction n with
+  | zero => rfl
+  | succ n ih => simp [List.replicate_succ, laysIds, layIds, ih]
+
+theorem inv_initN (n m : Nat) : Inv (State.initN n m) := by
+  refine ⟨?_, ?_⟩
+  · intro id c h; unfold State.initN get at h; simp at h
+  · intro j
+    simp [State.initN, State.ownIds, slotsIds_replicate, laysIds_replicate, count, get]
+
+theorem aligned_initN (n m : Nat) : Aligned (State.initN n m) := by
+  constructor
+  · intro x hx; simp [State.initN] at hx; obtain ⟨_, hx⟩ := hx; subst hx; trivial
+  · intro x hx; simp [State.initN] at hx; obtain ⟨_, hx⟩ := hx; subst hx; trivial
+
 end FeatModel.Pool
